@@ -3,6 +3,9 @@
    2. find_free_entries (find_free_entries_spec: the free spot, and the capacity refusal of a fixed root - 13fd5fe)
    3. write_run / write_entry refine "insert one entry" and keep the slot clauses of C03 (write_entry_refines)
    4. mark_deleted refines "remove one entry" (mark_deleted_refines)
+   3'. the decoder's RESTART rule (a long-name slot carrying 0x40 starts a run; what was pending is an orphan run):
+      scan_restart, scan_entry_run, scan_orphan_then_entry; write_entry into a directory that holds orphan runs
+      (write_entry_refines_gen, write_after_failed_write_refines, create_refines_map_orphans)
    5. failed calls: every outcome of write_entry (write_entry_cases); a fixed root is never changed by a failing call and
       never reports WriteZero (write_entry_fixed_root_total, write_entry_fixed_root_full_unchanged); any failing call keeps
       the decoded entries and the slots in use (failed_write_keeps_entries); the remaining known class, a chain that cannot
@@ -502,7 +505,10 @@ Fixpoint scan_pre (pre : slots) (idx : N) (pend : slots) (fat32 : bool)
   | s :: r =>
     if byte_at s 0 =? 229 then
       let '(es, ls, iss, p) := scan_pre r (idx + 1) [] fat32 in (es, ls, orphan pend idx ++ iss, p)
-    else if is_lfn_slot s then scan_pre r (idx + 1) (s :: pend) fat32
+    else if is_lfn_slot s then
+      if lfn_starts s && (match pend with [] => false | _ => true end) then
+        let '(es, ls, iss, p) := scan_pre r (idx + 1) [s] fat32 in (es, ls, DOrphanLfn idx :: iss, p)
+      else scan_pre r (idx + 1) (s :: pend) fat32
     else if is_label_slot s then
       let '(es, ls, iss, p) := scan_pre r (idx + 1) [] fat32 in (es, firstn 11 s :: ls, orphan pend idx ++ iss, p)
     else
@@ -526,13 +532,28 @@ Proof.
     { rewrite IH by exact Hr. destruct (scan_pre r (idx + 1) [] fat32) as [[[es1 ls1] iss1] p].
       destruct (dir_scan rest (idx + 1 + len_N r) p fat32) as [[es2 ls2] iss2]. unfold orphan. rewrite app_assoc. reflexivity. }
     destruct (is_lfn_slot s).
-    { rewrite IH by exact Hr. reflexivity. }
+    { destruct (lfn_starts s && match pend with [] => false | _ => true end).
+      - rewrite IH by exact Hr. destruct (scan_pre r (idx + 1) [s] fat32) as [[[es1 ls1] iss1] p].
+        destruct (dir_scan rest (idx + 1 + len_N r) p fat32) as [[es2 ls2] iss2]. reflexivity.
+      - rewrite IH by exact Hr. reflexivity. }
     destruct (is_label_slot s).
     { rewrite IH by exact Hr. destruct (scan_pre r (idx + 1) [] fat32) as [[[es1 ls1] iss1] p].
       destruct (dir_scan rest (idx + 1 + len_N r) p fat32) as [[es2 ls2] iss2]. unfold orphan. rewrite app_assoc. reflexivity. }
     rewrite IH by exact Hr. destruct (scan_pre r (idx + 1) [] fat32) as [[[es1 ls1] iss1] p].
     destruct (dir_scan rest (idx + 1 + len_N r) p fat32) as [[es2 ls2] iss2]. rewrite app_assoc. reflexivity.
 Qed.
+
+(* a prefix without end marker, scanned alone: what is still pending at its end is an orphan run *)
+Lemma scan_pre_alone fat32 pre idx pend : Forall nonend pre ->
+  dir_scan pre idx pend fat32 =
+  let '(es1, ls1, iss1, p) := scan_pre pre idx pend fat32 in (es1, ls1, iss1 ++ orphan p (idx + len_N pre)).
+Proof.
+  intros H. rewrite <- (app_nil_r pre) at 1. rewrite scan_app by exact H.
+  destruct (scan_pre pre idx pend fat32) as [[[es1 ls1] iss1] p]. cbn [dir_scan]. rewrite !app_nil_r. reflexivity.
+Qed.
+
+Lemma orphan_nil pend idx : orphan pend idx = [] -> pend = [].
+Proof. destruct pend; [reflexivity|discriminate]. Qed.
 
 Lemma scan_all_zfirst fat32 l idx : Forall zfirst l -> dir_scan l idx [] fat32 = ([], [], []).
 Proof.
@@ -556,16 +577,67 @@ Definition lfn_like (s : list N) : Prop := is_lfn_slot s = true /\ byte_at s 0 <
 Lemma lfn_live_like l : Forall lfn_live l -> Forall lfn_like l.
 Proof. intros H. eapply Forall_impl; [|exact H]. intros a [A1 [A2 [A3 _]]]. repeat split; assumption. Qed.
 
-Lemma scan_lfns fat32 : forall lf rest idx pend, Forall lfn_like lf ->
+(* a long-name slot that does not carry 0x40 continues the pending run *)
+Definition nostart (s : list N) : Prop := lfn_starts s = false.
+
+Lemma scan_lfns fat32 : forall lf rest idx pend, Forall lfn_like lf -> Forall nostart lf ->
   dir_scan (lf ++ rest) idx pend fat32 = dir_scan rest (idx + len_N lf) (rev lf ++ pend) fat32.
 Proof.
-  induction lf as [|s r IH]; intros rest idx pend H.
+  induction lf as [|s r IH]; intros rest idx pend H Hn.
   - cbn [app len_N length N.of_nat rev]. rewrite N.add_0_r. reflexivity.
-  - inversion H as [|? ? [H1 [H2 H3]] Hr]; subst. cbn [app dir_scan].
+  - inversion H as [|? ? [H1 [H2 H3]] Hr]; subst. inversion Hn as [|? ? Hn1 Hnr]; subst. cbn [app dir_scan].
     replace (byte_at s 0 =? 0) with false by (symmetry; apply N.eqb_neq; exact H2).
     replace (byte_at s 0 =? 229) with false by (symmetry; apply N.eqb_neq; exact H3).
-    rewrite H1, IH by exact Hr. cbn [rev]. rewrite <- app_assoc. cbn [app].
+    unfold nostart in Hn1. rewrite H1, Hn1. cbn [andb]. rewrite IH by assumption. cbn [rev]. rewrite <- app_assoc. cbn [app].
     replace (idx + len_N (s :: r)) with (idx + 1 + len_N r) by (unfold len_N; cbn [length]; lia). reflexivity.
+Qed.
+
+(* a run (0x40 at most on its first stored slot) met while nothing is pending *)
+Lemma scan_run fat32 lf rest idx : Forall lfn_like lf -> Forall nostart (tl lf) ->
+  dir_scan (lf ++ rest) idx [] fat32 = dir_scan rest (idx + len_N lf) (rev lf) fat32.
+Proof.
+  intros H Hn. destruct lf as [|f lf'].
+  - cbn [app len_N length N.of_nat rev]. rewrite N.add_0_r. reflexivity.
+  - inversion H as [|? ? [H1 [H2 H3]] Hr]; subst. cbn [tl] in Hn. cbn [app dir_scan].
+    replace (byte_at f 0 =? 0) with false by (symmetry; apply N.eqb_neq; exact H2).
+    replace (byte_at f 0 =? 229) with false by (symmetry; apply N.eqb_neq; exact H3).
+    rewrite H1, andb_false_r. rewrite scan_lfns by assumption. cbn [rev].
+    replace (idx + len_N (f :: lf')) with (idx + 1 + len_N lf') by (unfold len_N; cbn [length]; lia). reflexivity.
+Qed.
+
+(* THE RESTART: a run whose first slot carries 0x40, met while other long-name slots are pending: those are reported as
+   an orphan run at the index of the restarting slot, and the new run is pending alone *)
+Lemma scan_restart fat32 f lf' rest idx pend : Forall lfn_like (f :: lf') -> lfn_starts f = true -> Forall nostart lf' ->
+  pend <> [] ->
+  dir_scan ((f :: lf') ++ rest) idx pend fat32 =
+  let '(es, ls, iss) := dir_scan rest (idx + len_N (f :: lf')) (rev (f :: lf')) fat32 in (es, ls, DOrphanLfn idx :: iss).
+Proof.
+  intros H Hf Hn Hp. inversion H as [|? ? [H1 [H2 H3]] Hr]; subst. cbn [app dir_scan].
+  replace (byte_at f 0 =? 0) with false by (symmetry; apply N.eqb_neq; exact H2).
+  replace (byte_at f 0 =? 229) with false by (symmetry; apply N.eqb_neq; exact H3).
+  rewrite H1, Hf. destruct pend as [|p0 pend']; [congruence|]. cbn [andb].
+  rewrite scan_lfns by assumption. cbn [rev].
+  replace (idx + len_N (f :: lf')) with (idx + 1 + len_N lf') by (unfold len_N; cbn [length]; lia). reflexivity.
+Qed.
+
+(* a run accepted by run_valid carries 0x40 on its first stored slot and nowhere else *)
+Lemma run_valid_starts lf sfn : run_valid (rev lf) sfn = true ->
+  Forall nostart (tl lf) /\ (forall f lf', lf = f :: lf' -> lfn_starts f = true).
+Proof.
+  intros H. unfold run_valid in H. rewrite rev_involutive in H. destruct lf as [|f lf'].
+  - split; [constructor|]. intros; discriminate.
+  - rewrite !andb_true_iff in H. destruct H as [[[[[[[[H1 H2] H3] _] _] H6] _] _] _].
+    apply N.leb_le in H1, H2. apply N.eqb_eq in H3. cbn [rev] in H6. rewrite removelast_last in H6.
+    split.
+    + cbn [tl]. apply Forall_forall. intros x Hx. rewrite forallb_forall in H6. specialize (H6 x (proj1 (in_rev _ _) Hx)).
+      apply N.ltb_lt in H6. unfold nostart, lfn_starts. apply N.eqb_neq. lia.
+    + intros f0 l0 E. injection E as <- <-. unfold lfn_starts. apply N.eqb_eq. lia.
+Qed.
+
+Lemma Forall_tl_firstn {A} (P : A -> Prop) j (l : list A) : Forall P (tl l) -> Forall P (tl (firstn j l)).
+Proof.
+  intros H. destruct j as [|j]; [constructor|]. destruct l as [|x l]; [constructor|]. cbn [firstn tl] in *.
+  apply LfnProofs.Forall_firstn'. exact H.
 Qed.
 
 Definition short_live (s : list N) : Prop :=
@@ -605,6 +677,103 @@ Proof.
   destruct (forallb (fun t => byte_at t 0 =? 0) r) eqn:E; [|discriminate].
   inversion H; subst. split; [|split; reflexivity]. constructor; [exact Hz|].
   apply Forall_forall. intros t Ht. rewrite forallb_forall in E. apply N.eqb_eq. apply E. exact Ht.
+Qed.
+
+(* ... nor where a run starts *)
+Lemma no_issue_start_head fat32 s r idx pend es ls :
+  lfn_like s -> lfn_starts s = true -> dir_scan (s :: r) idx pend fat32 = (es, ls, []) -> pend = [].
+Proof.
+  intros [H1 [H2 H3]] Hf H. cbn [dir_scan] in H.
+  replace (byte_at s 0 =? 0) with false in H by (symmetry; apply N.eqb_neq; exact H2).
+  replace (byte_at s 0 =? 229) with false in H by (symmetry; apply N.eqb_neq; exact H3).
+  rewrite H1, Hf in H. destruct pend as [|p0 pend']; [reflexivity|]. cbn [andb] in H.
+  destruct (dir_scan r (idx + 1) [s] fat32) as [[a b] c]. discriminate.
+Qed.
+
+(* directories whose only issues are orphan long-name runs (what a failed write_entry leaves) *)
+Definition orphan_issue (i : dissue) : Prop := exists k, i = DOrphanLfn k.
+Definition orphans_only (iss : list dissue) : Prop := Forall orphan_issue iss.
+
+Lemma orphans_only_orphan pend idx : orphans_only (orphan pend idx).
+Proof. destruct pend; [constructor|]. constructor; [eexists; reflexivity|constructor]. Qed.
+
+Lemma after_end_orphans_only fat32 z r idx pend es ls iss :
+  zfirst z -> dir_scan (z :: r) idx pend fat32 = (es, ls, iss) -> orphans_only iss ->
+  Forall zfirst (z :: r) /\ es = [] /\ ls = [] /\ iss = orphan pend idx.
+Proof.
+  intros Hz H Ho. cbn [dir_scan] in H. unfold zfirst in Hz. rewrite Hz in H. cbn [N.eqb] in H.
+  destruct (forallb (fun t => byte_at t 0 =? 0) r) eqn:E.
+  - inversion H; subst. rewrite app_nil_r. split; [|repeat split]. constructor; [exact Hz|].
+    apply Forall_forall. intros t Ht. rewrite forallb_forall in E. apply N.eqb_eq. apply E. exact Ht.
+  - exfalso. inversion H; subst. apply Forall_app in Ho. destruct Ho as [_ Ho]. inversion Ho as [|? ? [k Hk] _]. discriminate.
+Qed.
+
+(* where a free slot begins (deleted, end marker, end of the list) the pending slots contribute one orphan issue and
+   nothing else *)
+Lemma scan_free_head fat32 rest idx pend :
+  (rest = [] \/ exists s r, rest = s :: r /\ (zfirst s \/ isdel s)) ->
+  dir_scan rest idx pend fat32 =
+  let '(es, ls, iss) := dir_scan rest idx [] fat32 in (es, ls, orphan pend idx ++ iss).
+Proof.
+  intros [->|[s [r [-> Hs]]]].
+  - cbn [dir_scan]. rewrite app_nil_r. reflexivity.
+  - cbn [dir_scan]. destruct Hs as [Hs|Hs].
+    + unfold zfirst in Hs. rewrite Hs. cbn [N.eqb app]. reflexivity.
+    + unfold isdel in Hs. rewrite Hs. cbn [N.eqb Pos.eqb].
+      destruct (dir_scan r (idx + 1) [] fat32) as [[a b] c]. cbn [app]. reflexivity.
+Qed.
+
+(* the slots of one entry - a valid run [lf] and its short slot [s] - met with [pend] pending: the entry is decoded from
+   its own run; [pend] is an orphan run reported at the index of the run's first slot (restart).  An entry WITHOUT long-name
+   slots would take the pending ones for its own: excluded unless nothing is pending. *)
+Lemma scan_entry_run fat32 lf s rest idx pend :
+  Forall lfn_like lf -> short_live s -> run_valid (rev lf) (firstn 11 s) = true -> (lf <> [] \/ pend = []) ->
+  dir_scan (lf ++ s :: rest) idx pend fat32 =
+  let '(es, ls, iss) := dir_scan rest (idx + len_N lf + 1) [] fat32 in
+  (mk_entry (rev lf) s (idx + len_N lf) fat32 :: es, ls, orphan pend idx ++ iss).
+Proof.
+  intros Hlf Hs Hrv Hc.
+  assert (e_lfn_ok (mk_entry (rev lf) s (idx + len_N lf) fat32) = true) as Eok by (unfold mk_entry; cbn [e_lfn_ok]; exact Hrv).
+  destruct (run_valid_starts lf _ Hrv) as [Hn Hf].
+  assert (pend = [] \/ exists f lf', lf = f :: lf' /\ pend <> []) as [->|[f [lf' [-> Hp]]]].
+  { destruct pend as [|p0 pend']; [left; reflexivity|]. destruct Hc as [Hc|Hc]; [|discriminate].
+    destruct lf as [|f lf']; [congruence|]. right. exists f, lf'. split; [reflexivity|discriminate]. }
+  - rewrite scan_run by assumption. rewrite scan_short by exact Hs. cbn zeta. rewrite Eok.
+    destruct (dir_scan rest (idx + len_N lf + 1) [] fat32) as [[a b] c]. reflexivity.
+  - cbn [tl] in Hn. rewrite scan_restart by (try assumption; apply (Hf f lf'); reflexivity).
+    rewrite scan_short by exact Hs. cbn zeta. rewrite Eok.
+    destruct (dir_scan rest (idx + len_N (f :: lf') + 1) [] fat32) as [[a b] c].
+    destruct pend as [|p0 pend']; [congruence|]. reflexivity.
+Qed.
+
+(* THE SITUATION THE RESTART RULE IS FOR: an orphan partial run [orph] (live long-name slots, 0x40 at most on the first:
+   what a failed write_entry leaves at the end of a directory cluster) directly followed by the complete run [run] of the
+   entry [s] (what the next successful write_entry appends).  The entry is decoded from its own run - with its long name -
+   and [orph] is reported once, at the index where the new run starts. *)
+Theorem scan_orphan_then_entry fat32 pre orph run s post es1 ls1 es2 ls2 iss2 :
+  Forall nonend pre -> dir_scan pre 0 [] fat32 = (es1, ls1, []) ->
+  orph <> [] -> Forall lfn_like orph -> Forall nostart (tl orph) ->
+  run <> [] -> Forall lfn_like run -> short_live s -> run_valid (rev run) (firstn 11 s) = true ->
+  dir_scan post (len_N pre + len_N orph + len_N run + 1) [] fat32 = (es2, ls2, iss2) ->
+  let e := mk_entry (rev run) s (len_N pre + len_N orph + len_N run) fat32 in
+  dir_scan (pre ++ orph ++ run ++ s :: post) 0 [] fat32 =
+    (es1 ++ e :: es2, ls1 ++ ls2, DOrphanLfn (len_N pre + len_N orph) :: iss2) /\
+  e_lfn_ok e = true /\ e_lfn e = cut_nul (flat_map lfn_units (rev run)) /\
+  e_first_slot e = len_N pre + len_N orph /\ e_sfn_slot e = len_N pre + len_N orph + len_N run.
+Proof.
+  intros Hpre H1 Ho Hol Hon Hr Hrl Hs Hrv H2. cbn zeta.
+  rewrite scan_pre_alone in H1 by exact Hpre. rewrite scan_app by exact Hpre.
+  destruct (scan_pre pre 0 [] fat32) as [[[a b] c] pd]. injection H1 as -> -> H1.
+  apply app_eq_nil in H1. destruct H1 as [-> H1]. apply orphan_nil in H1. subst pd.
+  rewrite scan_run by assumption.
+  rewrite scan_entry_run; [|exact Hrl|exact Hs|exact Hrv|left; exact Hr].
+  replace (0 + len_N pre + len_N orph + len_N run + 1) with (len_N pre + len_N orph + len_N run + 1) by lia. rewrite H2.
+  assert (orphan (rev orph) (0 + len_N pre + len_N orph) = [DOrphanLfn (len_N pre + len_N orph)]) as ->.
+  { destruct (rev orph) eqn:E; [|cbn [orphan]; rewrite N.add_0_l; reflexivity].
+    exfalso. apply Ho. rewrite <- (rev_involutive orph), E. reflexivity. }
+  rewrite !N.add_0_l. cbn [app]. split; [reflexivity|].
+  unfold mk_entry. cbn [e_lfn_ok e_lfn e_first_slot e_sfn_slot]. rewrite Hrv. repeat split.
+  unfold len_N. rewrite rev_length. lia.
 Qed.
 
 (* ================================================================ 3b. write_run *)
@@ -716,46 +885,55 @@ Proof. intros H. induction n; cbn [repeat_N]; constructor; assumption. Qed.
 
 (* Decomposition form (used by write_entry and by both renames): the slots [lf ++ [s]] of a new entry are put where a
    run of deleted slots begins; they replace deleted slots only (first alternative) or run over the end marker
-   (second alternative; m zero slots may have been appended). *)
-Lemma insert_run_scan fat32 ss es ls pre mid post lf s m :
-  dir_scan ss 0 [] fat32 = (es, ls, []) ->
+   (second alternative; m zero slots may have been appended).  The directory may hold orphan long-name runs (issues
+   DOrphanLfn only, no DAfterEnd): the new entry is decoded from its own run and the issue list is EXACTLY the same - an
+   orphan run pending at the free spot was reported by the first free slot and is now reported, at the same index, by the
+   restarting first slot of the new run.  (An entry without long-name slots - "." / ".." - needs an issue-free directory.) *)
+Lemma insert_run_scan_gen fat32 ss es ls iss pre mid post lf s m :
+  dir_scan ss 0 [] fat32 = (es, ls, iss) -> orphans_only iss -> (lf <> [] \/ iss = []) ->
   ss = pre ++ mid ++ post -> Forall nonend pre -> Forall isdel mid ->
   ((length mid = S (length lf) /\ m = 0%nat) \/
    ((length mid < S (length lf))%nat /\ (post = [] \/ exists z r, post = z :: r /\ zfirst z))) ->
   Forall lfn_live lf -> short_live s -> run_valid (rev lf) (firstn 11 s) = true ->
   exists es1 es2, es = es1 ++ es2 /\
     dir_scan (pre ++ (lf ++ [s]) ++ skipn (S (length lf)) (mid ++ post) ++ repeat_N zero_slot m) 0 [] fat32
-    = (es1 ++ mk_entry (rev lf) s (len_N pre + len_N lf) fat32 :: es2, ls, []).
+    = (es1 ++ mk_entry (rev lf) s (len_N pre + len_N lf) fat32 :: es2, ls, iss) /\
+    (post = [] \/ (exists z r, post = z :: r /\ zfirst z) -> Forall zfirst post).
 Proof.
-  intros H0 Hss Hpre Hmid Hcase Hlf Hs Hrv. subst ss.
+  intros H0 Ho Hc Hss Hpre Hmid Hcase Hlf Hs Hrv. subst ss.
   rewrite scan_app in H0 by exact Hpre.
   destruct (scan_pre pre 0 [] fat32) as [[[es1 ls1] iss1] pd] eqn:Epre.
-  destruct (dir_scan (mid ++ post) (0 + len_N pre) pd fat32) as [[es2 ls2] iss2] eqn:E2.
-  inversion H0 as [[Hes Hls Hiss]]. apply app_eq_nil in Hiss. destruct Hiss as [-> ->].
-  assert (pd = []) as ->.
-  { eapply no_issue_free_head; [exact E2|]. destruct mid as [|m0 mid'].
+  assert (mid ++ post = [] \/ exists s0 r0, mid ++ post = s0 :: r0 /\ (zfirst s0 \/ isdel s0)) as Hhead.
+  { destruct mid as [|m0 mid'].
     - destruct Hcase as [[C _]|[_ C]]; [cbn [length] in C; lia|]. cbn [app]. destruct C as [->|[z [r [-> Hz]]]]; [left; reflexivity|].
       right. exists z, r. split; [reflexivity|left; exact Hz].
     - right. exists m0, (mid' ++ post). split; [reflexivity|right]. inversion Hmid; assumption. }
-  rewrite scan_deleted in E2 by exact Hmid.
-  exists es1, es2. split; [reflexivity|].
+  rewrite (scan_free_head fat32 (mid ++ post) (0 + len_N pre) pd Hhead) in H0.
+  rewrite scan_deleted in H0 by exact Hmid.
+  destruct (dir_scan post (0 + len_N pre + len_N mid) [] fat32) as [[es2 ls2] iss2] eqn:E2.
+  injection H0 as Hes Hls Hiss.
+  assert (orphans_only iss2) as Ho2.
+  { rewrite <- Hiss in Ho. apply Forall_app in Ho. destruct Ho as [_ Ho]. apply Forall_app in Ho. apply Ho. }
+  assert (lf <> [] \/ pd = []) as Hc'.
+  { destruct Hc as [Hc|Hc]; [left; exact Hc|right]. rewrite Hc in Hiss. apply app_eq_nil in Hiss. destruct Hiss as [_ Hiss].
+    apply app_eq_nil in Hiss. destruct Hiss as [Hiss _]. eapply orphan_nil. exact Hiss. }
+  assert (post = [] \/ (exists z r, post = z :: r /\ zfirst z) -> Forall zfirst post /\ es2 = [] /\ ls2 = [] /\ iss2 = []) as Hend.
+  { intros [->|[z [r [-> Hz]]]].
+    - cbn [dir_scan] in E2. inversion E2. repeat split; constructor.
+    - destruct (after_end_orphans_only _ _ _ _ _ _ _ _ Hz E2 Ho2) as [Q1 [Q2 [Q3 Q4]]]. repeat split; assumption. }
+  exists es1, es2. split; [symmetry; exact Hes|]. split; [|intros C; apply Hend; exact C].
   rewrite scan_app by exact Hpre. rewrite Epre. rewrite <- app_assoc. cbn [app].
-  rewrite scan_lfns by (apply lfn_live_like; exact Hlf). rewrite app_nil_r. rewrite scan_short by exact Hs. cbn zeta.
-  assert (e_lfn_ok (mk_entry (rev lf) s (0 + len_N pre + len_N lf) fat32) = true) as Eok by (unfold mk_entry; cbn [e_lfn_ok]; exact Hrv).
-  rewrite Eok.
+  rewrite scan_entry_run; [|apply lfn_live_like; exact Hlf|exact Hs|exact Hrv|exact Hc'].
   assert (dir_scan (skipn (S (length lf)) (mid ++ post) ++ repeat_N zero_slot m) (0 + len_N pre + len_N lf + 1) [] fat32
-          = (es2, ls2, [])) as ->.
+          = (es2, ls2, iss2)) as ->.
   { destruct Hcase as [[C ->]|[C1 C2]].
     - cbn [repeat_N]. rewrite app_nil_r. rewrite LfnProofs.skipn_app_exact by exact C.
       replace (0 + len_N pre + len_N lf + 1) with (0 + len_N pre + len_N mid) by (unfold len_N; lia). exact E2.
-    - assert (Forall zfirst post /\ es2 = [] /\ ls2 = []) as [Hz [-> ->]].
-      { destruct C2 as [->|[z [r [-> Hz]]]].
-        - cbn [dir_scan] in E2. inversion E2. repeat split; constructor.
-        - eapply no_issue_after_end; [exact Hz|exact E2]. }
+    - destruct (Hend C2) as [Hz [-> [-> ->]]].
       apply scan_all_zfirst. apply Forall_app. split.
       + rewrite skipn_app. rewrite skipn_all2 by lia. cbn [app]. apply LfnProofs.Forall_skipn'. exact Hz.
       + apply Forall_repeat_N. exact zfirst_zero_slot. }
-  rewrite N.add_0_l. rewrite app_nil_r. reflexivity.
+  rewrite <- Hls, <- Hiss. rewrite N.add_0_l. reflexivity.
 Qed.
 
 Record sfn_live (e : sfn_entry) : Prop := {
@@ -774,13 +952,14 @@ Qed.
 
 Definition free_slot (s : list N) : Prop := byte_at s 0 = 0 \/ byte_at s 0 = 229.
 
-(* (c) *)
-Theorem write_entry_refines k free fat32 ss n e es ls p q ss' :
-  dir_scan ss 0 [] fat32 = (es, ls, []) -> len_N ss < 134217728 -> sfn_live e ->
+(* (c), for a directory that may hold orphan long-name runs (issues DOrphanLfn only): the issue list is unchanged *)
+Theorem write_entry_refines_gen k free fat32 ss n e es ls iss p q ss' :
+  dir_scan ss 0 [] fat32 = (es, ls, iss) -> orphans_only iss -> (is_dot_name n = false \/ iss = []) ->
+  len_N ss < 134217728 -> sfn_live e ->
   write_entry k free ss n e = (Ok (p, q), ss') ->
   exists es1 es2 ne,
-    (* the decoding gains exactly one entry, at the position of the reused run; no issue appears *)
-    es = es1 ++ es2 /\ dir_scan ss' 0 [] fat32 = (es1 ++ ne :: es2, ls, []) /\
+    (* the decoding gains exactly one entry, at the position of the reused run; the issues are exactly the same *)
+    es = es1 ++ es2 /\ dir_scan ss' 0 [] fat32 = (es1 ++ ne :: es2, ls, iss) /\
     (* the new entry *)
     e_lfn ne = (if is_dot_name n then [] else utf16_encode n) /\ e_lfn_ok ne = true /\
     e_sfn ne = se_name e /\ e_attr ne = se_attrs e /\ e_ntres ne = se_reserved_0 e /\
@@ -794,11 +973,13 @@ Theorem write_entry_refines k free fat32 ss n e es ls p q ss' :
     (forall i s, p <= N.of_nat i < q -> nth_error ss i = Some s -> free_slot s) /\
     (length ss <= length ss')%nat /\ (k = FixedRoot -> length ss' = length ss).
 Proof.
-  intros H0 Hb He H. unfold write_entry, lift in H.
+  intros H0 Ho Hc Hb He H. unfold write_entry, lift in H.
   destruct (validate_long_name n) as [[]| | |] eqn:V; try discriminate.
   set (lf := map lfn_encode (write_entry_lfn_slots n (se_name e))) in *.
   assert (entry_run n e = lf ++ [sfn_encode e]) as Erun by reflexivity.
-  destruct (entry_lfn_run_valid n (se_name e) V) as [R1 [R2 [R3 [_ R5]]]]. fold lf in R1, R2, R3, R5.
+  destruct (entry_lfn_run_valid n (se_name e) V) as [R1 [R2 [R3 [R4 R5]]]]. fold lf in R1, R2, R3, R4, R5.
+  assert (lf <> [] \/ iss = []) as Hc'.
+  { destruct Hc as [Hc|Hc]; [left|right; exact Hc]. specialize (R4 Hc). intros C. rewrite C in R4. cbn [length] in R4. lia. }
   assert (len_N (entry_run n e) = len_N lf + 1) as Elen by (rewrite Erun, len_N_app; reflexivity).
   destruct (find_free_entries_spec k ss (len_N (entry_run n e))) as [p0 [pre [mid [post [S Ef]]]]]; [lia|exact Hb|].
   rewrite Ef in H. destruct (is_fixed k && (len_N ss <? p0 + len_N (entry_run n e))); [discriminate|].
@@ -819,7 +1000,8 @@ Proof.
     - left. assert (length mid = S (length lf)) as C' by (unfold len_N in *; lia). split; [exact C'|].
       apply M1. rewrite app_length. lia.
     - right. split; [unfold len_N in *; lia|exact C2]. }
-  destruct (insert_run_scan fat32 ss es ls pre mid post lf (sfn_encode e) m H0 S1 S3 S4 Hcase R5 Hs) as [es1 [es2 [Ees Escan]]].
+  destruct (insert_run_scan_gen fat32 ss es ls iss pre mid post lf (sfn_encode e) m H0 Ho Hc' S1 S3 S4 Hcase R5 Hs)
+    as [es1 [es2 [Ees [Escan Hzp]]]].
   { rewrite F0. exact R1. }
   exists es1, es2, (mk_entry (rev lf) (sfn_encode e) (len_N pre + len_N lf) fat32).
   destruct (mk_entry_fields (rev lf) e (len_N pre + len_N lf) fat32 Hf)
@@ -852,20 +1034,7 @@ Proof.
       - unfold tail. rewrite LfnProofs.firstn_app_exact by exact C. eapply Forall_impl; [|exact S4]. intros a Ha. right. exact Ha.
       - apply LfnProofs.Forall_firstn'. apply Forall_app. split.
         + eapply Forall_impl; [|exact S4]. intros a Ha. right. exact Ha.
-        + destruct C2 as [->|[z [r [-> Hz]]]]; [constructor|].
-          assert (dir_scan (pre ++ mid ++ z :: r) 0 [] fat32 = (es, ls, [])) as H0'
-            by (unfold tail in S1; rewrite <- S1; exact H0).
-          rewrite scan_app in H0' by exact S3.
-          destruct (scan_pre pre 0 [] fat32) as [[[a1 b1] c1] pd].
-          destruct (dir_scan (mid ++ z :: r) (0 + len_N pre) pd fat32) as [[a2 b2] c2] eqn:E2.
-          inversion H0' as [[Q1 Q2 Q3]]. apply app_eq_nil in Q3. destruct Q3 as [-> ->].
-          assert (pd = []) as ->.
-          { eapply no_issue_free_head; [exact E2|]. right. destruct mid as [|m0 mid'].
-            - exists z, r. split; [reflexivity|left; exact Hz].
-            - exists m0, (mid' ++ z :: r). split; [reflexivity|right]. inversion S4; assumption. }
-          rewrite scan_deleted in E2 by exact S4.
-          destruct (no_issue_after_end _ _ _ _ _ _ Hz E2) as [Q _].
-          eapply Forall_impl; [|exact Q]. intros a Ha. left. exact Ha. }
+        + eapply Forall_impl; [|exact (Hzp C2)]. intros a Ha. left. exact Ha. }
     rewrite <- (firstn_skipn L tail) in Hn.
     assert (i - length pre < length tail)%nat as Hlt.
     { apply nth_error_Some. rewrite <- (firstn_skipn L tail). rewrite Hn. discriminate. }
@@ -873,6 +1042,30 @@ Proof.
     apply nth_error_In in Hn. rewrite Forall_forall in Hfree. apply Hfree. exact Hn.
   - lia.
   - intros Hk. specialize (M2 Hk). assert (m = 0%nat) by (apply M1; exact M2). unfold L in *. lia.
+Qed.
+
+(* (c) *)
+Theorem write_entry_refines k free fat32 ss n e es ls p q ss' :
+  dir_scan ss 0 [] fat32 = (es, ls, []) -> len_N ss < 134217728 -> sfn_live e ->
+  write_entry k free ss n e = (Ok (p, q), ss') ->
+  exists es1 es2 ne,
+    (* the decoding gains exactly one entry, at the position of the reused run; no issue appears *)
+    es = es1 ++ es2 /\ dir_scan ss' 0 [] fat32 = (es1 ++ ne :: es2, ls, []) /\
+    (* the new entry *)
+    e_lfn ne = (if is_dot_name n then [] else utf16_encode n) /\ e_lfn_ok ne = true /\
+    e_sfn ne = se_name e /\ e_attr ne = se_attrs e /\ e_ntres ne = se_reserved_0 e /\
+    e_ctime_ms ne = se_create_time_0 e /\ e_ctime ne = se_create_time_1 e /\ e_cdate ne = se_create_date e /\
+    e_adate ne = se_access_date e /\ e_mtime ne = se_modify_time e /\ e_mdate ne = se_modify_date e /\
+    e_cluster ne = (if fat32 then se_first_cluster_hi e * 65536 else 0) + se_first_cluster_lo e /\
+    e_size ne = se_size e /\ e_first_slot ne = p /\ e_sfn_slot ne + 1 = q /\
+    q = p + len_N (entry_run n e) /\
+    (* frame: slots outside [p, q) are untouched, slots inside were free (deleted or behind the end marker) *)
+    (forall i, (i < length ss)%nat -> (N.of_nat i < p \/ q <= N.of_nat i) -> nth_error ss' i = nth_error ss i) /\
+    (forall i s, p <= N.of_nat i < q -> nth_error ss i = Some s -> free_slot s) /\
+    (length ss <= length ss')%nat /\ (k = FixedRoot -> length ss' = length ss).
+Proof.
+  intros H0 Hb He H.
+  exact (write_entry_refines_gen k free fat32 ss n e es ls [] p q ss' H0 (Forall_nil _) (or_intror eq_refl) Hb He H).
 Qed.
 
 (* ================================================================ 4. deleting one entry *)
@@ -886,21 +1079,28 @@ Qed.
 
 Lemma scan_pre_pend_step fat32 s r idx pend : byte_at s 0 <> 0 ->
   snd (scan_pre (s :: r) idx pend fat32) =
-  snd (scan_pre r (idx + 1) (if byte_at s 0 =? 229 then [] else if is_lfn_slot s then s :: pend else []) fat32).
+  snd (scan_pre r (idx + 1) (if byte_at s 0 =? 229 then [] else if is_lfn_slot s then
+                               (if lfn_starts s && (match pend with [] => false | _ => true end) then [s] else s :: pend)
+                             else []) fat32).
 Proof.
   intros _. cbn [scan_pre]. destruct (byte_at s 0 =? 229).
   { destruct (scan_pre r (idx + 1) [] fat32) as [[[a b] c] d]. reflexivity. }
-  destruct (is_lfn_slot s); [reflexivity|].
+  destruct (is_lfn_slot s).
+  { destruct (lfn_starts s && match pend with [] => false | _ => true end); [|reflexivity].
+    destruct (scan_pre r (idx + 1) [s] fat32) as [[[a b] c] d]. reflexivity. }
   destruct (is_label_slot s); destruct (scan_pre r (idx + 1) [] fat32) as [[[a b] c] d]; reflexivity.
 Qed.
 
-(* every decoded entry sits at a definite place: [pre0] (after which nothing is pending), its long-name slots [lf],
-   its short slot [s] *)
+(* every decoded entry sits at a definite place: [pre0], its long-name slots [lf] (0x40 at most on the first), its short
+   slot [s].  Either the run continues the slots pending at the start of the scan, or it began inside: after [pre0]
+   nothing was pending, or the first slot of [lf] carries 0x40 (a restart: what was pending is not part of the entry) *)
 Lemma scan_In_split fat32 : forall ss idx pend es ls iss e,
   dir_scan ss idx pend fat32 = (es, ls, iss) -> In e es ->
   exists pre0 lf s post, ss = pre0 ++ lf ++ s :: post /\ Forall nonend pre0 /\ Forall lfn_like lf /\ short_live s /\
-    ((pre0 = [] /\ e = mk_entry (rev lf ++ pend) s (idx + len_N lf) fat32) \/
-     (pre0 <> [] /\ snd (scan_pre pre0 idx pend fat32) = [] /\ e = mk_entry (rev lf) s (idx + len_N pre0 + len_N lf) fat32)).
+    Forall nostart (tl lf) /\
+    ((pre0 = [] /\ (pend <> [] -> Forall nostart lf) /\ e = mk_entry (rev lf ++ pend) s (idx + len_N lf) fat32) \/
+     ((snd (scan_pre pre0 idx pend fat32) = [] \/ exists f lf', lf = f :: lf' /\ lfn_starts f = true) /\
+      e = mk_entry (rev lf) s (idx + len_N pre0 + len_N lf) fat32)).
 Proof.
   induction ss as [|s0 r IH]; intros idx pend es ls iss e H Hin.
   - cbn [dir_scan] in H. inversion H; subst. destruct Hin.
@@ -910,41 +1110,96 @@ Proof.
     assert (forall es' ls' iss', dir_scan r (idx + 1) [] fat32 = (es', ls', iss') -> In e es' ->
               (byte_at s0 0 =? 229) = true \/ ((byte_at s0 0 =? 229) = false /\ is_lfn_slot s0 = false) ->
               exists pre0 lf s post, s0 :: r = pre0 ++ lf ++ s :: post /\ Forall nonend pre0 /\ Forall lfn_like lf /\ short_live s /\
-                ((pre0 = [] /\ e = mk_entry (rev lf ++ pend) s (idx + len_N lf) fat32) \/
-                 (pre0 <> [] /\ snd (scan_pre pre0 idx pend fat32) = [] /\
+                Forall nostart (tl lf) /\
+                ((pre0 = [] /\ (pend <> [] -> Forall nostart lf) /\ e = mk_entry (rev lf ++ pend) s (idx + len_N lf) fat32) \/
+                 ((snd (scan_pre pre0 idx pend fat32) = [] \/ exists f lf', lf = f :: lf' /\ lfn_starts f = true) /\
                   e = mk_entry (rev lf) s (idx + len_N pre0 + len_N lf) fat32))) as Reset.
     { intros es' ls' iss' Hr Hin' Hkind.
-      destruct (IH _ _ _ _ _ _ Hr Hin') as [pre0 [lf [s [post [E1 [E2 [E3 [E4 E5]]]]]]]].
+      destruct (IH _ _ _ _ _ _ Hr Hin') as [pre0 [lf [s [post [E1 [E2 [E3 [E4 [E4' E5]]]]]]]]].
       exists (s0 :: pre0), lf, s, post. split; [rewrite E1; reflexivity|]. split; [constructor; assumption|].
-      split; [exact E3|]. split; [exact E4|]. right. split; [discriminate|].
+      split; [exact E3|]. split; [exact E4|]. split; [exact E4'|]. right.
       assert (snd (scan_pre (s0 :: pre0) idx pend fat32) = snd (scan_pre pre0 (idx + 1) [] fat32)) as Esnd.
       { rewrite scan_pre_pend_step by exact E0. destruct Hkind as [->|[-> ->]]; reflexivity. }
-      rewrite Esnd. destruct E5 as [[-> E5]|[N5 [S5 E5]]].
-      - split; [reflexivity|]. rewrite E5, app_nil_r. f_equal; cbn [len_N length N.of_nat]; lia.
+      rewrite Esnd. destruct E5 as [[-> [_ E5]]|[S5 E5]].
+      - split; [left; reflexivity|]. rewrite E5, app_nil_r. f_equal; cbn [len_N length N.of_nat]; lia.
       - split; [exact S5|]. rewrite E5. f_equal; unfold len_N; cbn [length]; lia. }
     destruct (byte_at s0 0 =? 229) eqn:E5.
     { destruct (dir_scan r (idx + 1) [] fat32) as [[es' ls'] iss'] eqn:Hr. inversion H; subst.
       eapply Reset; [reflexivity|exact Hin|left; reflexivity]. }
     destruct (is_lfn_slot s0) eqn:EL.
-    { destruct (IH _ _ _ _ _ _ H Hin) as [pre0 [lf [s [post [E1 [E2 [E3 [E4 E5']]]]]]]].
-      apply N.eqb_neq in E5.
-      destruct E5' as [[-> E6]|[N6 [S6 E6]]].
-      - exists [], (s0 :: lf), s, post. split; [rewrite E1; reflexivity|]. split; [constructor|].
-        split; [constructor; [repeat split; assumption|exact E3]|]. split; [exact E4|]. left. split; [reflexivity|].
-        rewrite E6. cbn [rev]. rewrite <- app_assoc. cbn [app]. f_equal; unfold len_N; cbn [length]; lia.
-      - exists (s0 :: pre0), lf, s, post. split; [rewrite E1; reflexivity|]. split; [constructor; assumption|].
-        split; [exact E3|]. split; [exact E4|]. right. split; [discriminate|].
-        rewrite scan_pre_pend_step by exact E0. apply N.eqb_neq in E5. rewrite E5, EL. split; [exact S6|].
-        rewrite E6. f_equal; unfold len_N; cbn [length]; lia. }
+    { apply N.eqb_neq in E5.
+      assert (lfn_like s0) as Hlike by (repeat split; assumption).
+      destruct (lfn_starts s0 && match pend with [] => false | _ => true end) eqn:ER.
+      - (* restart *)
+        apply andb_true_iff in ER. destruct ER as [ER1 ER2].
+        destruct (dir_scan r (idx + 1) [s0] fat32) as [[es' ls'] iss'] eqn:Hr. inversion H; subst.
+        destruct (IH _ _ _ _ _ _ Hr Hin) as [pre0 [lf [s [post [E1 [E2 [E3 [E4 [E4' E5']]]]]]]]].
+        destruct E5' as [[-> [N6 E6]]|[S6 E6]].
+        + exists [], (s0 :: lf), s, post. split; [rewrite E1; reflexivity|]. split; [constructor|].
+          split; [constructor; assumption|]. split; [exact E4|]. split; [cbn [tl]; apply N6; discriminate|]. right.
+          split; [right; exists s0, lf; split; [reflexivity|exact ER1]|].
+          rewrite E6. cbn [rev]. f_equal; unfold len_N; cbn [length]; lia.
+        + exists (s0 :: pre0), lf, s, post. split; [rewrite E1; reflexivity|]. split; [constructor; assumption|].
+          split; [exact E3|]. split; [exact E4|]. split; [exact E4'|]. right.
+          rewrite scan_pre_pend_step by exact E0. apply N.eqb_neq in E5. rewrite E5, EL, ER1, ER2. cbn [andb].
+          split; [exact S6|]. rewrite E6. f_equal; unfold len_N; cbn [length]; lia.
+      - (* continuation *)
+        destruct (IH _ _ _ _ _ _ H Hin) as [pre0 [lf [s [post [E1 [E2 [E3 [E4 [E4' E5']]]]]]]]].
+        destruct E5' as [[-> [N6 E6]]|[S6 E6]].
+        + exists [], (s0 :: lf), s, post. split; [rewrite E1; reflexivity|]. split; [constructor|].
+          split; [constructor; assumption|]. split; [exact E4|]. split; [cbn [tl]; apply N6; discriminate|]. left.
+          split; [reflexivity|]. split.
+          * intros Hp. constructor; [|apply N6; discriminate]. unfold nostart.
+            destruct pend as [|p0 pend']; [congruence|]. rewrite andb_true_r in ER. exact ER.
+          * rewrite E6. cbn [rev]. rewrite <- app_assoc. cbn [app]. f_equal; unfold len_N; cbn [length]; lia.
+        + exists (s0 :: pre0), lf, s, post. split; [rewrite E1; reflexivity|]. split; [constructor; assumption|].
+          split; [exact E3|]. split; [exact E4|]. split; [exact E4'|]. right.
+          rewrite scan_pre_pend_step by exact E0. apply N.eqb_neq in E5. rewrite E5, EL, ER.
+          split; [exact S6|]. rewrite E6. f_equal; unfold len_N; cbn [length]; lia. }
     destruct (is_label_slot s0) eqn:EV.
     { destruct (dir_scan r (idx + 1) [] fat32) as [[es' ls'] iss'] eqn:Hr. inversion H; subst.
       eapply Reset; [reflexivity|exact Hin|right; split; reflexivity]. }
     destruct (dir_scan r (idx + 1) [] fat32) as [[es' ls'] iss'] eqn:Hr. inversion H; subst.
     destruct Hin as [<-|Hin].
     + exists [], [], s0, r. split; [reflexivity|]. split; [constructor|]. split; [constructor|].
-      split; [apply N.eqb_neq in E5; repeat split; assumption|]. left. split; [reflexivity|].
+      split; [apply N.eqb_neq in E5; repeat split; assumption|]. split; [constructor|]. left. split; [reflexivity|].
+      split; [intros; constructor|].
       cbn [rev app len_N length N.of_nat]. rewrite N.add_0_r. reflexivity.
     + eapply Reset; [reflexivity|exact Hin|right; split; reflexivity].
+Qed.
+
+(* ... for a whole directory (nothing pending at the start) *)
+Lemma scan_In_split0 fat32 ss es ls iss e :
+  dir_scan ss 0 [] fat32 = (es, ls, iss) -> In e es ->
+  exists pre0 lf s post, ss = pre0 ++ lf ++ s :: post /\ Forall nonend pre0 /\ Forall lfn_like lf /\ short_live s /\
+    Forall nostart (tl lf) /\
+    (snd (scan_pre pre0 0 [] fat32) = [] \/ exists f lf', lf = f :: lf' /\ lfn_starts f = true) /\
+    e = mk_entry (rev lf) s (len_N pre0 + len_N lf) fat32.
+Proof.
+  intros H0 Hin.
+  destruct (scan_In_split fat32 ss 0 [] es ls iss e H0 Hin) as [pre0 [lf [s [post [E1 [E2 [E3 [E4 [E4' E5]]]]]]]]].
+  exists pre0, lf, s, post. repeat (split; [assumption|]).
+  destruct E5 as [[-> [_ E5]]|[S5 E5]].
+  - split; [left; reflexivity|]. rewrite E5, app_nil_r. f_equal.
+  - split; [exact S5|]. rewrite E5. f_equal.
+Qed.
+
+(* ... without issues: nothing is pending where the entry's slots begin *)
+Lemma scan_In_split_wf fat32 ss es ls e :
+  dir_scan ss 0 [] fat32 = (es, ls, []) -> In e es ->
+  exists pre0 lf s post, ss = pre0 ++ lf ++ s :: post /\ Forall nonend pre0 /\ Forall lfn_like lf /\ short_live s /\
+    Forall nostart (tl lf) /\ snd (scan_pre pre0 0 [] fat32) = [] /\
+    e = mk_entry (rev lf) s (len_N pre0 + len_N lf) fat32.
+Proof.
+  intros H0 Hin.
+  destruct (scan_In_split0 fat32 ss es ls [] e H0 Hin) as [pre0 [lf [s [post [E1 [E2 [E3 [E4 [E4' [E5 E6]]]]]]]]]].
+  exists pre0, lf, s, post. repeat (split; [assumption|]). split; [|exact E6].
+  destruct E5 as [E5|[f [lf' [-> Hf]]]]; [exact E5|].
+  rewrite E1 in H0. rewrite scan_app in H0 by exact E2.
+  destruct (scan_pre pre0 0 [] fat32) as [[[es1 ls1] iss1] pd]. cbn [snd].
+  destruct (dir_scan ((f :: lf') ++ s :: post) (0 + len_N pre0) pd fat32) as [[es2 ls2] iss2] eqn:E2'.
+  injection H0 as _ _ Q3. apply app_eq_nil in Q3. destruct Q3 as [_ ->].
+  cbn [app] in E2'. eapply no_issue_start_head; [|exact Hf|exact E2']. inversion E3; assumption.
 Qed.
 
 (* (d) *)
@@ -959,11 +1214,7 @@ Theorem mark_deleted_refines fat32 ss es ls e :
                  nth_error ss' i = Some (mark_deleted_slot s)).
 Proof.
   intros H0 Hin. cbn zeta.
-  destruct (scan_In_split fat32 ss 0 [] es ls [] e H0 Hin) as [pre0 [lf [s [post [E1 [E2 [E3 [E4 E5]]]]]]]].
-  assert (snd (scan_pre pre0 0 [] fat32) = [] /\ e = mk_entry (rev lf) s (len_N pre0 + len_N lf) fat32) as [Sp Ee].
-  { destruct E5 as [[-> E5]|[_ [S5 E5]]].
-    - split; [reflexivity|]. rewrite E5, app_nil_r. f_equal.
-    - split; [exact S5|]. rewrite E5. f_equal. }
+  destruct (scan_In_split_wf fat32 ss es ls e H0 Hin) as [pre0 [lf [s [post [E1 [E2 [E3 [E4 [E4' [Sp Ee]]]]]]]]]].
   assert (e_first_slot e = len_N pre0) as Ef.
   { rewrite Ee. unfold mk_entry. cbn [e_first_slot]. unfold len_N. rewrite rev_length. lia. }
   assert (e_sfn_slot e = len_N pre0 + len_N lf) as Es by (rewrite Ee; reflexivity).
@@ -985,7 +1236,7 @@ Proof.
   (* the old decoding, split at the entry *)
   pose proof H0 as H0'. rewrite E1 in H0'. rewrite scan_app in H0' by exact E2.
   destruct (scan_pre pre0 0 [] fat32) as [[[es1 ls1] iss1] pd] eqn:Epre. cbn [snd] in Sp. subst pd.
-  rewrite scan_lfns in H0' by exact E3. rewrite app_nil_r in H0'. rewrite scan_short in H0' by exact E4. cbn zeta in H0'.
+  rewrite scan_run in H0' by assumption. rewrite scan_short in H0' by exact E4. cbn zeta in H0'.
   destruct (dir_scan post (0 + len_N pre0 + len_N lf + 1) [] fat32) as [[es2 ls2] iss2] eqn:E2'.
   rewrite N.add_0_l in H0'. rewrite <- Ee in H0'.
   injection H0' as Q1 Q2 Q3. apply app_eq_nil in Q3. destruct Q3 as [Q3a Q3]. apply app_eq_nil in Q3. destruct Q3 as [_ Q3b].
@@ -1158,7 +1409,8 @@ Proof.
     destruct S as [S1 S2 S3 S4 S5].
     set (lf := map lfn_encode (write_entry_lfn_slots n (se_name e))) in *.
     assert (entry_run n e = lf ++ [sfn_encode e]) as Erun by reflexivity.
-    destruct (entry_lfn_run_valid n (se_name e) V) as [_ [_ [_ [_ R5]]]]. fold lf in R5.
+    destruct (entry_lfn_run_valid n (se_name e) V) as [R1 [_ [_ [_ R5]]]]. fold lf in R1, R5.
+    destruct (run_valid_starts lf _ R1) as [Rn _].
     assert (length (entry_run n e) = S (length lf)) as ElenN by (rewrite Erun, app_length; cbn [length]; lia).
     assert (firstn j (entry_run n e) = firstn j lf) as Efj.
     { rewrite Erun, firstn_app. replace (j - length lf)%nat with 0%nat by lia. cbn [firstn]. apply app_nil_r. }
@@ -1184,7 +1436,8 @@ Proof.
     split; [exists ENotEnoughSpace; split; [reflexivity|discriminate]|]. split; [discriminate|].
     split; [|split].
     + rewrite scan_app by exact S3. rewrite Epre.
-      rewrite <- (app_nil_r (firstn j lf)). rewrite scan_lfns by (apply lfn_live_like; apply LfnProofs.Forall_firstn'; exact R5).
+      rewrite <- (app_nil_r (firstn j lf)).
+      rewrite scan_run by (first [apply lfn_live_like; apply LfnProofs.Forall_firstn'; exact R5|apply Forall_tl_firstn; exact Rn]).
       cbn [dir_scan]. rewrite !app_nil_r. cbn [app]. eexists. split; [reflexivity|].
       destruct (rev (firstn j lf)); [left; reflexivity|right; eexists; reflexivity].
     + rewrite S1, !app_length, firstn_length. rewrite app_length in J. lia.
@@ -1259,7 +1512,9 @@ Proof.
     apply N.eqb_eq in EL. unfold attrs_truncate, ATTR_LFN in EL.
     destruct (byte_at bs 0 =? 229).
     { rewrite (IH _ (idx + 1) []). destruct (dir_scan r (idx + 1) [] fat32) as [[a b] c]. reflexivity. }
-    destruct (is_lfn_slot bs); [apply IH|].
+    destruct (is_lfn_slot bs).
+    { destruct (lfn_starts bs && match pend with [] => false | _ => true end); [|apply IH].
+      rewrite (IH _ (idx + 1) [bs]). destruct (dir_scan r (idx + 1) [bs] fat32) as [[a b] c]. reflexivity. }
     assert (is_label_slot bs = true) as EV.
     { unfold is_label_slot. apply land15_8 in EL. rewrite land_mod64_8 in EL. rewrite EL. reflexivity. }
     rewrite EV. rewrite (IH _ (idx + 1) []). destruct (dir_scan r (idx + 1) [] fat32) as [[a b] c]. reflexivity.
@@ -1331,12 +1586,14 @@ Qed.
 (* (f) create_file / create_dir at the slot layer: one new entry; its short name is new in the directory (so the
    WDupShort clause cannot appear), and - relative to the library's own matching DirEntry::eq_name - no existing entry
    matches the new name by long or by short name *)
-Theorem create_entry_refines upper oem fat32 k free ss n attrs cl now wd es ls range ss' :
-  dir_scan ss 0 [] fat32 = (es, ls, []) -> len_N ss < 134217728 ->
+(* ... stated for a directory that may hold orphan long-name runs (then the name must have a long-name run: not "." / "..") *)
+Theorem create_entry_refines_gen upper oem fat32 k free ss n attrs cl now wd es ls iss range ss' :
+  dir_scan ss 0 [] fat32 = (es, ls, iss) -> orphans_only iss -> (is_dot_name n = false \/ iss = []) ->
+  len_N ss < 134217728 ->
   attrs < 64 -> N.land attrs 8 = 0 -> TimeProofs.datetime_valid now = true ->
   create_entry upper oem fat32 k free ss n attrs cl now wd = (Ok (Some range), ss') ->
   exists es1 es2 ne,
-    es = es1 ++ es2 /\ dir_scan ss' 0 [] fat32 = (es1 ++ ne :: es2, ls, []) /\
+    es = es1 ++ es2 /\ dir_scan ss' 0 [] fat32 = (es1 ++ ne :: es2, ls, iss) /\
     e_lfn ne = (if is_dot_name n then [] else utf16_encode n) /\ e_lfn_ok ne = true /\ e_attr ne = attrs /\ e_size ne = 0 /\
     sfn_legal_b (e_sfn ne) = true /\
     ~ In (e_sfn ne) (map e_sfn es) /\
@@ -1344,7 +1601,7 @@ Theorem create_entry_refines upper oem fat32 k free ss n attrs cl now wd es ls r
     (forall l, dir_entries oem ss = Ok l -> forall ev, In ev l -> matches upper oem n ev = false) /\
     (forall i, (i < length ss)%nat -> (N.of_nat i < fst range \/ snd range <= N.of_nat i) -> nth_error ss' i = nth_error ss i).
 Proof.
-  intros H0 Hb Ha Hv Hnow H. unfold create_entry, lift in H.
+  intros H0 Ho Hc Hb Ha Hv Hnow H. unfold create_entry, lift in H.
   destruct (check_for_existence upper oem ss n (Some wd)) as [[ev|a]| | |] eqn:C; try discriminate.
   unfold check_for_existence in C.
   destruct (validate_long_name n) as [[]| | |] eqn:V; try discriminate. cbn [bind] in C.
@@ -1359,10 +1616,10 @@ Proof.
   pose proof (sfn_legal _ _ _ _ AF) as HL. pose proof (sfn_unique _ _ _ _ AF) as HU.
   pose proof (create_sfn_entry_live fat32 a attrs cl st HL Ha Hv (stamp_create_ranges now st Hnow ST)) as Hlive.
   destruct rg as [p q].
-  destruct (write_entry_refines k free fat32 ss n _ es ls p q ss'' H0 Hb Hlive W)
+  destruct (write_entry_refines_gen k free fat32 ss n _ es ls iss p q ss'' H0 Ho Hc Hb Hlive W)
     as [es1 [es2 [ne [E1 [E2 [E3 [E4 [E5 [E6 [_ [_ [_ [_ [_ [_ [_ [_ [E15 [_ [_ [_ [Fr _]]]]]]]]]]]]]]]]]]]]]].
   exists es1, es2, ne. cbn [create_sfn_entry se_name se_attrs se_size] in E5, E6, E15.
-  rewrite (dir_entries_sfns fat32 oem ss l es ls [] DE H0) in HU.
+  rewrite (dir_entries_sfns fat32 oem ss l es ls iss DE H0) in HU.
   split; [exact E1|]. split; [exact E2|]. split; [exact E3|]. split; [exact E4|]. split; [exact E6|]. split; [exact E15|].
   split; [rewrite E5; exact HL|]. split; [rewrite E5; exact HU|]. split; [|split].
   - intros ND. apply has_dup_NoDup. apply has_dup_NoDup in ND. rewrite map_app. cbn [map].
@@ -1372,6 +1629,25 @@ Proof.
     destruct (matches upper oem n ev) eqn:M; [|reflexivity].
     exfalso. pose proof (find_none _ _ F ev Hin). congruence.
   - exact Fr.
+Qed.
+
+
+Theorem create_entry_refines upper oem fat32 k free ss n attrs cl now wd es ls range ss' :
+  dir_scan ss 0 [] fat32 = (es, ls, []) -> len_N ss < 134217728 ->
+  attrs < 64 -> N.land attrs 8 = 0 -> TimeProofs.datetime_valid now = true ->
+  create_entry upper oem fat32 k free ss n attrs cl now wd = (Ok (Some range), ss') ->
+  exists es1 es2 ne,
+    es = es1 ++ es2 /\ dir_scan ss' 0 [] fat32 = (es1 ++ ne :: es2, ls, []) /\
+    e_lfn ne = (if is_dot_name n then [] else utf16_encode n) /\ e_lfn_ok ne = true /\ e_attr ne = attrs /\ e_size ne = 0 /\
+    sfn_legal_b (e_sfn ne) = true /\
+    ~ In (e_sfn ne) (map e_sfn es) /\
+    (Wf.has_dup list_eqb (map e_sfn es) = false -> Wf.has_dup list_eqb (map e_sfn (es1 ++ ne :: es2)) = false) /\
+    (forall l, dir_entries oem ss = Ok l -> forall ev, In ev l -> matches upper oem n ev = false) /\
+    (forall i, (i < length ss)%nat -> (N.of_nat i < fst range \/ snd range <= N.of_nat i) -> nth_error ss' i = nth_error ss i).
+Proof.
+  intros H0 Hb Ha Hv Hnow H.
+  exact (create_entry_refines_gen upper oem fat32 k free ss n attrs cl now wd es ls [] range ss' H0 (Forall_nil _)
+           (or_intror eq_refl) Hb Ha Hv Hnow H).
 Qed.
 
 (* ================================================================ 7. C03 corollaries, rename, finite-map view *)
@@ -1410,10 +1686,8 @@ Lemma decoded_entry_slots fat32 ss es ls iss e :
     e_first_slot e = len_N pre0 /\ e_sfn_slot e = len_N pre0 + len_N lf.
 Proof.
   intros H0 Hin.
-  destruct (scan_In_split fat32 ss 0 [] es ls iss e H0 Hin) as [pre0 [lf [s [post [E1 [E2 [E3 [E4 E5]]]]]]]].
+  destruct (scan_In_split0 fat32 ss es ls iss e H0 Hin) as [pre0 [lf [s [post [E1 [E2 [E3 [E4 [_ [_ Ee]]]]]]]]]].
   exists pre0, lf, s, post. repeat (split; [assumption|]).
-  assert (e = mk_entry (rev lf) s (len_N pre0 + len_N lf) fat32) as Ee.
-  { destruct E5 as [[-> E5]|[_ [_ E5]]]; rewrite E5; [rewrite app_nil_r|]; f_equal. }
   rewrite Ee. unfold mk_entry. cbn [e_first_slot e_sfn_slot]. unfold len_N. rewrite rev_length. split; lia.
 Qed.
 
@@ -1586,6 +1860,58 @@ Proof.
   rewrite dir_map_insert by exact Hfresh. rewrite E6, <- E2. rewrite (dir_map_remove a b e key ND). reflexivity.
 Qed.
 
+(* ---------- the payoff of the decoder's restart rule: a directory after a FAILED write_entry is still usable ----------
+   A write_entry that does not succeed leaves the decoding with the same entries and labels and at most one orphan run
+   (failed_write_keeps_entries).  A later successful write_entry into that directory - typically appended directly
+   behind the orphan run - still refines "insert one entry": the new entry is decoded with its long name, the entries
+   and labels are the old ones plus the new one, the issue list is exactly the one the failed call left, and (new short
+   name) the finite-map view is the map update. *)
+Theorem write_after_failed_write_refines k free1 free2 fat32 ss n1 e1 r1 ss1 n2 e2 p q ss2 es ls :
+  dir_scan ss 0 [] fat32 = (es, ls, []) -> len_N ss < 134217728 ->
+  write_entry k free1 ss n1 e1 = (r1, ss1) -> (forall range, r1 <> Ok range) ->
+  len_N ss1 < 134217728 -> sfn_live e2 -> is_dot_name n2 = false ->
+  write_entry k free2 ss1 n2 e2 = (Ok (p, q), ss2) ->
+  exists iss es1 es2 ne,
+    dir_scan ss1 0 [] fat32 = (es, ls, iss) /\ (iss = [] \/ exists i, iss = [DOrphanLfn i]) /\
+    es = es1 ++ es2 /\ dir_scan ss2 0 [] fat32 = (es1 ++ ne :: es2, ls, iss) /\
+    e_lfn ne = utf16_encode n2 /\ e_lfn_ok ne = true /\ e_sfn ne = se_name e2 /\
+    e_attr ne = se_attrs e2 /\ e_size ne = se_size e2 /\
+    e_cluster ne = (if fat32 then se_first_cluster_hi e2 * 65536 else 0) + se_first_cluster_lo e2 /\
+    e_first_slot ne = p /\ e_sfn_slot ne + 1 = q /\
+    (forall i, (i < length ss1)%nat -> (N.of_nat i < p \/ q <= N.of_nat i) -> nth_error ss2 i = nth_error ss1 i) /\
+    (~ In (se_name e2) (map e_sfn es) ->
+     forall key, dir_map (es1 ++ ne :: es2) key = if list_eqb (se_name e2) key then Some ne else dir_map es key).
+Proof.
+  intros H0 Hb W1 Hr1 Hb1 Hl D2 W2.
+  destruct (failed_write_keeps_entries k free1 fat32 ss n1 e1 es ls r1 ss1 H0 Hb W1 Hr1) as [_ [_ [[iss [H1 Hi]] _]]].
+  assert (orphans_only iss) as Ho.
+  { destruct Hi as [->|[i ->]]; [constructor|]. constructor; [exists i; reflexivity|constructor]. }
+  destruct (write_entry_refines_gen k free2 fat32 ss1 n2 e2 es ls iss p q ss2 H1 Ho (or_introl D2) Hb1 Hl W2)
+    as [es1 [es2 [ne [F1 [F2 [F3 [F4 [F5 [F6 [_ [_ [_ [_ [_ [_ [_ [F14 [F15 [F16 [F17 [_ [Fr1 _]]]]]]]]]]]]]]]]]]]]]].
+  rewrite D2 in F3.
+  exists iss, es1, es2, ne. repeat (split; [assumption|]).
+  intros Hnew key. rewrite <- F5. rewrite F1. apply dir_map_insert. rewrite <- F1, F5. exact Hnew.
+Qed.
+
+(* the same for the whole create_file / create_dir step (existence check with the library's own matching over what its
+   iterator lists, alias generation, write): in a directory whose only issues are orphan long-name runs, a successful
+   create commutes with the finite-map view and leaves the issue list as it was *)
+Theorem create_refines_map_orphans upper oem fat32 k free ss n attrs cl now wd es ls iss range ss' :
+  dir_scan ss 0 [] fat32 = (es, ls, iss) -> orphans_only iss -> is_dot_name n = false -> len_N ss < 134217728 ->
+  attrs < 64 -> N.land attrs 8 = 0 -> TimeProofs.datetime_valid now = true ->
+  create_entry upper oem fat32 k free ss n attrs cl now wd = (Ok (Some range), ss') ->
+  exists es' ne, dir_scan ss' 0 [] fat32 = (es', ls, iss) /\
+    e_lfn ne = utf16_encode n /\ e_lfn_ok ne = true /\ dir_map es (e_sfn ne) = None /\
+    forall key, dir_map es' key = if list_eqb (e_sfn ne) key then Some ne else dir_map es key.
+Proof.
+  intros H0 Ho D Hb Ha Hv Hn H.
+  destruct (create_entry_refines_gen upper oem fat32 k free ss n attrs cl now wd es ls iss range ss' H0 Ho (or_introl D) Hb Ha Hv Hn H)
+    as [es1 [es2 [ne [E1 [E2 [E3 [E4 [_ [_ [_ [E8 _]]]]]]]]]]].
+  rewrite D in E3.
+  exists (es1 ++ ne :: es2), ne. split; [exact E2|]. split; [exact E3|]. split; [exact E4|]. split; [apply dir_map_none; exact E8|].
+  intros key. rewrite E1 in *. apply dir_map_insert. exact E8.
+Qed.
+
 (* ================================================================ 8. concrete directories for the Examples in Props/ *)
 Definition ex_name1 : str := [104; 101; 108; 108; 111; 32; 119; 111; 114; 108; 100; 46; 116; 120; 116].  (* "hello world.txt" *)
 Definition ex_alias1 : list N := [72; 69; 76; 76; 79; 87; 126; 49; 84; 88; 84].                            (* "HELLOW~1TXT" *)
@@ -1596,6 +1922,18 @@ Definition ex_live : list N := sfn_encode (ex_sfn ex_alias2).
 Definition ex_dir1 : slots := snd (write_entry FixedRoot 0 (repeat_N zero_slot 8) ex_name1 (ex_sfn ex_alias1)).
 (* ... and then "b" (1 + 1 slots) *)
 Definition ex_dir2 : slots := snd (write_entry FixedRoot 0 ex_dir1 [98] (ex_sfn ex_alias2)).
+
+(* an orphan partial run followed by a complete entry: "hello world.txt" (slots 0-2), the first slot (0x42) of the run of a
+   14-character name, then the run (0x41) and the short slot of "b", then the end marker *)
+Definition ex_orph : slots := firstn 1 (entry_run (repeat_N 97 14) (ex_sfn ex_alias)).
+Definition ex_run_b : slots := map lfn_encode (write_entry_lfn_slots [98] ex_alias2).
+Definition ex_dir_restart : slots := firstn 3 ex_dir1 ++ ex_orph ++ ex_run_b ++ ex_live :: [zero_slot].
+(* a chain-backed directory of ONE 4-slot cluster holding "hello world.txt" and one free slot; the 3-slot run of a
+   14-character name does not fit and the chain cannot grow (no free cluster): its first slot stays (ex_chain1); then
+   a cluster is free again and "b" is created: the directory grows by one cluster (ex_chain2) *)
+Definition ex_chain0 : slots := firstn 3 ex_dir1 ++ [zero_slot].
+Definition ex_chain1 : slots := snd (write_entry (Chained 4) 0 ex_chain0 (repeat_N 97 14) (ex_sfn ex_alias)).
+Definition ex_chain2 : slots := snd (write_entry (Chained 4) 1 ex_chain1 [98] (ex_sfn ex_alias2)).
 
 (* ================================================================ 9. the library's own lookup (find_entry) against the decoder *)
 
@@ -1625,17 +1963,36 @@ Proof.
     rewrite land_mod64_8. reflexivity.
 Qed.
 
-(* pending long-name slots of the decoder = the live long-name slots the library's iterator counts back from an entry *)
+(* without issues inside the prefix no restart drops pending slots: every live long-name slot stays pending *)
+Lemma scan_pre_step_noissue fat32 s r idx pend :
+  snd (fst (scan_pre (s :: r) idx pend fat32)) = [] ->
+  snd (scan_pre (s :: r) idx pend fat32) =
+    snd (scan_pre r (idx + 1) (if byte_at s 0 =? 229 then [] else if is_lfn_slot s then s :: pend else []) fat32) /\
+  snd (fst (scan_pre r (idx + 1) (if byte_at s 0 =? 229 then [] else if is_lfn_slot s then s :: pend else []) fat32)) = [].
+Proof.
+  cbn [scan_pre]. destruct (byte_at s 0 =? 229).
+  { destruct (scan_pre r (idx + 1) [] fat32) as [[[a b] c] d]. cbn [fst snd]. intros H. apply app_eq_nil in H. split; [reflexivity|apply H]. }
+  destruct (is_lfn_slot s).
+  { destruct (lfn_starts s && match pend with [] => false | _ => true end); [|intros H; split; [reflexivity|exact H]].
+    destruct (scan_pre r (idx + 1) [s] fat32) as [[[a b] c] d]. cbn [fst snd]. discriminate. }
+  destruct (is_label_slot s); destruct (scan_pre r (idx + 1) [] fat32) as [[[a b] c] d]; cbn [fst snd]; intros H;
+    apply app_eq_nil in H; (split; [reflexivity|apply H]).
+Qed.
+
+(* pending long-name slots of the decoder = the live long-name slots the library's iterator counts back from an entry
+   (in a prefix that decodes without issue: the iterator's offset range also covers an orphan run directly before a
+   restarting slot, which the decoder reports instead) *)
 Lemma pend_len fat32 : forall pre idx pend before,
   Forall nonend pre -> Forall attrs_sane pre ->
+  snd (fst (scan_pre pre idx pend fat32)) = [] ->
   len_N (LfnSpec.take_while LfnSpec.is_live_lfn before) = len_N pend ->
   len_N (snd (scan_pre pre idx pend fat32)) =
   len_N (LfnSpec.take_while LfnSpec.is_live_lfn (rev (map slot_decode pre) ++ before)).
 Proof.
-  induction pre as [|s r IH]; intros idx pend before Hne Hs Hinv.
+  induction pre as [|s r IH]; intros idx pend before Hne Hs Hni Hinv.
   - cbn [scan_pre snd map rev app]. symmetry. exact Hinv.
   - inversion Hne as [|? ? Hn1 Hn2]; subst. inversion Hs as [|? ? Hs1 Hs2]; subst.
-    rewrite scan_pre_pend_step by exact Hn1. cbn [map rev]. rewrite <- app_assoc. cbn [app].
+    destruct (scan_pre_step_noissue fat32 s r idx pend Hni) as [-> Hni']. cbn [map rev]. rewrite <- app_assoc. cbn [app].
     apply IH; try assumption.
     cbn [LfnSpec.take_while]. unfold attrs_sane in Hs1.
     destruct (slot_decode s) as [e|e] eqn:ED.
@@ -1678,6 +2035,7 @@ Proof.
   assert (len_N pd = len_N (LfnSpec.take_while LfnSpec.is_live_lfn (rev (map slot_decode pre) ++ []))) as Hpl.
   { replace pd with (snd (scan_pre pre 0 [] fat32)) by (rewrite Epre; reflexivity). apply pend_len; try assumption.
     - rewrite Hss in Hsane. apply Forall_app in Hsane. apply Hsane.
+    - rewrite Epre. cbn [fst snd]. apply app_eq_nil in Q3. apply Q3.
     - reflexivity. }
   exists e, se. split; [rewrite <- Q1; apply in_or_app; right; left; reflexivity|].
   subst ev. unfold LfnSpec.entry_at, Lfn.mk_view. cbn [Lfn.ev_raw_name Lfn.ev_begin Lfn.ev_end].
@@ -1749,10 +2107,10 @@ Lemma decoded_sfn_length fat32 ss es ls iss e :
   dir_scan ss 0 [] fat32 = (es, ls, iss) -> Forall (fun s => length s = 32%nat) ss -> In e es -> length (e_sfn e) = 11%nat.
 Proof.
   intros H0 H32 Hin.
-  destruct (scan_In_split fat32 ss 0 [] es ls iss e H0 Hin) as [pre0 [lf [s [post [E1 [_ [_ [_ E5]]]]]]]].
+  destruct (scan_In_split0 fat32 ss es ls iss e H0 Hin) as [pre0 [lf [s [post [E1 [_ [_ [_ [_ [_ E5]]]]]]]]]].
   assert (length s = 32%nat) as Ls.
   { rewrite Forall_forall in H32. apply H32. rewrite E1. apply in_or_app. right. apply in_or_app. right. left. reflexivity. }
-  assert (e_sfn e = firstn 11 s) as -> by (destruct E5 as [[_ ->]|[_ [_ ->]]]; reflexivity).
+  assert (e_sfn e = firstn 11 s) as -> by (rewrite E5; reflexivity).
   rewrite firstn_length, Ls. reflexivity.
 Qed.
 
